@@ -234,6 +234,44 @@ def check_group(R, rng, probs, counters):
         scale = math.sqrt(abs(np.linalg.det(x.pixel_scale_matrix)))
         if moved(before, after, math.radians(scale) * 1e-6 + 1e-12)[1].any():
             probs.append("image %d of a group: pixels moved on the sky (%s)" % (i, meta))
+    # (1b) ONE WCS object held by two things (a description and the image loaded later, the colour planes of one pointing):
+    # flipping one of them must leave the other's WCS - and the caller's own object - as they were
+    ws, Ws, Hs, metas = rand_wcs(R)
+    hdr0 = ws.to_header(relax=True).tostring()
+    d_ = ImageDescription(shape=(Hs, Ws), wcs=ws)
+    i_ = Image.from_array(np.zeros((Hs, Ws), np.float32), wcs=ws)
+    (d_ if R.random() < 0.5 else i_).flip_parity()
+    counters["shared_wcs_objects"] += 1
+    if ws.to_header(relax=True).tostring() != hdr0:
+        probs.append("flip_parity of one holder changed the WCS object the caller still holds (shared by an Image and an ImageDescription) (%s)" % metas)
+    # (1c) a flip that fails is all or nothing: rows and WCS still belong together afterwards
+    wa, Wa, Ha, metaa = rand_wcs(R)
+    try:
+        from astropy.wcs import WCS as _W
+
+        ha = wa.to_header(relax=True)
+        for k_ in list(ha.keys()):
+            if k_[:5] in ("CTYPE", "CRVAL", "CRPIX", "CDELT", "CUNIT") or k_[:2] in ("PC", "CD"):
+                ha[k_ + "A"] = ha[k_]
+        walt = _W(ha, key="A")
+    except Exception:
+        walt = None
+    if walt is not None and Ha >= 2:
+        arr_a = rng.normal(size=(Ha, Wa)).astype(np.float32)
+        img_a = Image.from_array(arr_a.copy(), wcs=walt)
+        p0a = indep_parity(walt)
+        try:
+            img_a.flip_parity()
+            failed = False
+        except Exception:
+            failed = True
+        counters["flips_of_alt_key_wcs_%s" % ("failed" if failed else "done")] += 1
+        rows_rev = np.array_equal(np.asarray(img_a.asarray()), arr_a[::-1])
+        rows_same = np.array_equal(np.asarray(img_a.asarray()), arr_a)
+        wcs_flipped = indep_parity(img_a.wcs) == -p0a
+        if not ((rows_rev and wcs_flipped) or (rows_same and not wcs_flipped)):
+            probs.append("a flip_parity that %s left rows %s under a WCS of %s parity: pixels moved on the sky (%s)" % (
+                "raised" if failed else "returned", "reversed" if rows_rev else ("unchanged" if rows_same else "scrambled"), "flipped" if wcs_flipped else "the old", metaa))
     # (2) the same WCS with different heights
     w2, W2, H2, meta2 = rand_wcs(R)
     scale = math.sqrt(abs(np.linalg.det(w2.pixel_scale_matrix)))
